@@ -266,3 +266,6 @@ def bcfDecode (bytes : List Nat) : Option (List String × List Rec) :=
   | _ => none
 
 end Sfs
+
+/- Rust functions mirrored in this file beyond those cited above (read by tools/trace_matrix.py):
+   core/src/input/genotype/reader/vcf.rs: read_genotypes (one record line → GT per sample: parseVcfRecord); core/src/input/genotype/reader/bcf.rs: read_genotypes (one BCF record → GT per sample: bcfRecord) -/
